@@ -346,7 +346,10 @@ def threads_exact(t0: int, t1: int, t2: int, t3: int, m0: int, m1: int, m2: int,
     while k < n:
         tid = _pick(THREADS, ts[k])
         text = "m%d" % k  # data independence: the handler never inspects message contents
+        cnt = CNT[k] if k < len(CNT) else 1  # number of new messages this request brings (slice key `cnt`, concrete partition)
         new = [{"role": "user", "content": text}]
+        for j in range(1, cnt):
+            new.append({"role": "assistant" if j % 2 else "user", "content": "%s_%d" % (text, j)})
         body = _Body(["cfg"], tid, list(new))
         before_calls = len(Recorder.generate_calls)
         before_store = dict(store.data)
@@ -380,6 +383,7 @@ def threads_exact(t0: int, t1: int, t2: int, t3: int, m0: int, m1: int, m2: int,
 
 
 NREQ = int(sl("nreq", 3))
+CNT = list(sl("cnt", [1, 1, 1, 1]))
 
 
 def threads_symbolic_ids(a: str, b: str) -> bool:
@@ -429,7 +433,7 @@ SPEC = {
     "property": "C20",
     "functions": FUNCTIONS,
     "bounds": "(a) config ids: 1 id with len<=5 (quick) / len<=6 and 2 ids len<=4 (thorough), any code points; roots /srv/root, /srv/root/, /r; single-config mode on/off; "
-              "(b) every sequence of <=3 (thorough 4) requests over 5 thread selectors x 3 messages; two arbitrary symbolic 16-17 char thread ids",
+              "(b) every sequence of <=3 (thorough 4) requests over 5 thread selectors, each request bringing 1-3 new messages (concrete partition); two arbitrary symbolic 16-17 char thread ids",
     "outside": "Windows path semantics; ids longer than the bound; the HTTP/pydantic layer (bodies are duck-typed objects so thread ids can stay symbolic); streaming responses; "
                "os.listdir-based config listing; symlinks inside the root",
     "assumptions": ["os.path.normpath replaced by CPython 3.12's own pure-Python fallback (differential-tested against the C version on a corpus at import)",
@@ -450,9 +454,10 @@ SPEC = {
         {"fn": "confined_twin", "expect": "counterexample", "slices": [{"root": 0, "n": 4}], "tcond": 120, "tpath": 10, "bound": "twin"},
         {"fn": "fixed_reply", "slices": [{"root": 0}, {"root": 1}], "tcond": 300, "tpath": 10, "bound": "15-entry hostile id pool x single-config mode on/off, through chat_completion",
          "smoke": [{"slice": {"root": 0}, "args": {"k": 0, "single": False}}]},
-        {"fn": "threads_exact", "tiers": ("quick",), "slices": [{"nreq": 3}], "tcond": 400, "tpath": 10, "bound": "<=3 requests",
+        {"fn": "threads_exact", "tiers": ("quick",), "slices": [{"nreq": 3, "cnt": [a, b, c]} for a in (1, 2) for b in (1, 2) for c in (1, 2)] + [{"nreq": 3, "cnt": [3, 1, 2]}], "tcond": 400, "tpath": 10,
+         "bound": "<=3 requests, each bringing 1 or 2 new messages (all 8 combinations) and one 3/1/2 combination",
          "smoke": [{"slice": {"nreq": 4}, "args": {"t0": 1, "t1": 2, "t2": 1, "t3": 1, "m0": 0, "m1": 1, "m2": 2, "m3": 0, "n": 4}}]},
-        {"fn": "threads_exact", "tiers": ("thorough",), "slices": [{"nreq": 4}], "tcond": 2000, "tpath": 10, "bound": "<=4 requests"},
+        {"fn": "threads_exact", "tiers": ("thorough",), "slices": [{"nreq": 4}, {"nreq": 4, "cnt": [2, 1, 2, 1]}, {"nreq": 4, "cnt": [1, 3, 1, 2]}], "tcond": 2000, "tpath": 10, "bound": "<=4 requests"},
         {"fn": "threads_symbolic_ids", "slices": [{}], "tcond": 300, "tpath": 20, "bound": "two arbitrary 16-17 char ids"},
         {"fn": "threads_twin", "expect": "counterexample", "slices": [{"nreq": 3}], "tcond": 200, "tpath": 10, "bound": "twin"},
     ],
